@@ -210,6 +210,38 @@ func c14Monitor(args []string) int {
 		}
 		s.StopSearch()
 	}
+	// searches whose time budget is zero still end: pondering without a clock is ended by ponderhit (the timer
+	// fires at once), a move time equal to the safety margin ends by itself
+	for k := 0; k < 6; k++ {
+		s := search.NewSearch()
+		d := &captureDriver{}
+		s.SetUciHandler(d)
+		p := position.NewPosition()
+		sl := search.NewSearchLimits()
+		what := ""
+		switch k % 3 {
+		case 0:
+			sl.Ponder, sl.Depth = true, 1+rng.Intn(3)
+			what = "go ponder depth N ; ponderhit"
+		case 1:
+			sl.Ponder, sl.Nodes = true, uint64(100+rng.Intn(2000))
+			what = "go ponder nodes N ; ponderhit"
+		default:
+			sl.TimeControl, sl.MoveTime = true, time.Duration(18+rng.Intn(5))*time.Millisecond
+			what = fmt.Sprintf("go movetime %d", sl.MoveTime.Milliseconds())
+		}
+		setCurrent(map[string]interface{}{"scenario": what})
+		s.StartSearch(*p, *sl)
+		if sl.Ponder {
+			time.Sleep(time.Duration(rng.Intn(20)) * time.Millisecond)
+			s.PonderHit()
+		}
+		rep.Cases++
+		if d.waitResultsFor(1, 5*time.Second) != 1 {
+			rep.Violate("search-never-delivers-its-result", map[string]interface{}{"scenario": what}, "no result within 5 s")
+		}
+		callWithWatchdog(wd, func() { s.StopSearch() })
+	}
 	// the next go arrives in answer to bestmove while the finished search is still inside the
 	// (slow) result callback: the new search must not be ended by the clean-up of the old one
 	for k := 0; k < 12; k++ {
